@@ -17,7 +17,7 @@ TraceSpec == TraceInit /\ [][TraceNext]_<<l, vars>>
 H(r) == [i \in 1..Len(r.steps) |-> [in |-> r.steps[i].in, ev |-> r.steps[i].ev]]
 
 MonitorNames == {
-    "C16_AtMostOneSource", "C16_RejectedUnlessOverride", "C16_ClosedBeforeAttach", "C16_SourceIsHolder",
+    "C16_AtMostOneSource", "C16_RejectedUnlessOverride", "C16_ClosedBeforeAttach", "C16_SourceIsHolder", "C16_NoStaleData",
     "C18_ReaderLimit", "C18_ReaderLimitAPI", "C18_NoDoubleCount", "C18_TeardownOnUnavailable", "C18_NoReadersWithoutStream",
     "C19_AtMostOneResponse", "C19_NoSpuriousResponse", "C19_AnsweredWhenWaitEnds", "C19_AnsweredWhenReady",
     "C19_StreamOnlyWhileAvailable", "C19_DemandAlternates", "C19_StartedOnDemand", "C19_NoDeadWait", "C19_NoHang",
@@ -33,6 +33,7 @@ Mon(name, r) ==
     CASE name = "C16_AtMostOneSource"        -> C16_AtMostOneSource(h)
       [] name = "C16_RejectedUnlessOverride" -> C16_RejectedUnlessOverride(h, Override)
       [] name = "C16_ClosedBeforeAttach"     -> C16_ClosedBeforeAttach(h)
+      [] name = "C16_NoStaleData"            -> C16_NoStaleData(h)
       \* the API never shows as source a publisher that does not hold the path
       [] name = "C16_SourceIsHolder" ->
             \A i \in 1..Len(h) : (r.steps[i].obs.alive /\ r.steps[i].obs.source \in Pubs)
@@ -80,8 +81,8 @@ RunVerdict(r, ln) ==
 \* conformance compares the path goroutine's own events in order, and responses / reader
 \* closes as sets.
 IsReaderClose(e) == e.t = "close" /\ e.c \in Readers
-NoRC(ev) == SelectSeq(ev, LAMBDA e : ~IsReaderClose(e) /\ e.t # "resp")
-Resps(ev) == {ev[k] : k \in {j \in 1..Len(ev) : ev[j].t = "resp"}}
+NoRC(ev) == SelectSeq(ev, LAMBDA e : ~IsReaderClose(e) /\ e.t \notin {"resp", "data"})
+Resps(ev) == {ev[k] : k \in {j \in 1..Len(ev) : ev[j].t \in {"resp", "data"}}}
 RC(ev) == {ev[k].c : k \in {j \in 1..Len(ev) : IsReaderClose(ev[j])}}
 
 RECURSIVE ConformsFrom(_, _, _, _, _)
@@ -102,7 +103,11 @@ ConformsFrom(r, k, s, ns, gone) ==
          IN IF same THEN ConformsFrom(r, k + 1, a.st, a.ns, gone \/ in.a = "Terminate") ELSE k
 
 \* 0 = conforms; otherwise the first step that is not a step of layer 1
-FirstDrift(r) == ConformsFrom(r, 1, IF Regex THEN Dead ELSE StartPath(0), 0, FALSE)
+\* step 1 of a run is the pseudo-step "Init" carrying the events of the path's creation
+FirstDrift(r) ==
+    LET s0 == IF Regex THEN Dead ELSE StartPath(0) IN
+    IF NoRC(s0.ev) # NoRC(r.steps[1].ev) THEN 1
+    ELSE ConformsFrom(r, 2, s0, IF AlwaysAvail /\ ~Regex THEN 1 ELSE 0, FALSE)
 
 Verdicts == l >= 1 => RunVerdict(Trace[l], l)
 Drift == l >= 1 => (LET d == FirstDrift(Trace[l]) IN d = 0 \/ Emit("DRIFT", [l |-> l, run |-> Trace[l].run, step |-> d]))
